@@ -469,6 +469,8 @@ impl TableStore {
     }
 
     fn add_head(&self, table: &Arc<ReadonlyTable>) -> TableStoreResult<()> {
+        #[cfg(jj_vcs_jj_verif)]
+        crate::verif_hooks::point("table.addhead", &table.name);
         std::fs::write(self.dir.join("heads").join(&table.name), "")
             .map_err(TableStoreError::SaveHeads)
     }
@@ -478,6 +480,8 @@ impl TableStore {
         // that we're on a distributed file system where the locking
         // doesn't work. We'll probably end up with two current
         // heads. We'll detect that next time we load the table.
+        #[cfg(jj_vcs_jj_verif)]
+        crate::verif_hooks::point("table.rmhead", &table.name);
         std::fs::remove_file(self.dir.join("heads").join(&table.name)).ok();
     }
 
